@@ -42,6 +42,7 @@ func init() {
 		Quick: []ruleDef{
 			{"REP-STRING", 10, ruleRepString},
 			{"PAN-ERRDROP-LIT", 4, ruleErrDropLit},
+			{"LIT-DELEGATE", 4, ruleLitDelegate},
 		},
 	})
 	register(&propDef{
@@ -1065,6 +1066,40 @@ func ruleRepPrint(c *Ctx, r *R) {
 			return true
 		})
 		r.check(viaSafe && !direct, t+".String", c.Pos(sfd), "elements rendered through safeStr", t+".String renders elements with String() instead of safeStr(): nested containers recurse without a depth cut")
+	}
+	// numeric map keys are rendered through a Value of the key type (so bool keys print true/false)
+	for _, fn := range []string{"numericMap.String", "numericMap.SafeStr"} {
+		fd := c.Func(fn)
+		if fd == nil {
+			continue
+		}
+		typed := false
+		ast.Inspect(fd.Body, func(n ast.Node) bool {
+			if call, ok := n.(*ast.CallExpr); ok && c.CalleeName(call) == "Value.String" {
+				if sel, ok := unparen(call.Fun).(*ast.SelectorExpr); ok {
+					if cl, ok := unparen(sel.X).(*ast.CompositeLit); ok && isNamed(c.TypeOf(cl), "Value") && strings.Contains(nosp(c.Src(cl)), "t:m.keyType") {
+						typed = true
+					}
+				}
+			}
+			return true
+		})
+		if !typed {
+			// types.ExprString elides literal bodies; look at the literal's fields directly
+			ast.Inspect(fd.Body, func(n ast.Node) bool {
+				if cl, ok := n.(*ast.CompositeLit); ok && isNamed(c.TypeOf(cl), "Value") {
+					for _, el := range cl.Elts {
+						if kv, ok := el.(*ast.KeyValueExpr); ok && types.ExprString(kv.Key) == "t" && nosp(c.Src(kv.Value)) == "m.keyType" {
+							if call, ok := c.Parent(c.Parent(cl)).(*ast.CallExpr); ok && c.CalleeName(call) == "Value.String" {
+								typed = true
+							}
+						}
+					}
+				}
+				return true
+			})
+		}
+		r.check(typed, fn+" keys", c.Pos(fd), "keys rendered as Value{t: keyType, num: k}.String()", fn+" does not render keys through a Value of the map's key type: bool keys print as 1/0 and typed keys lose their formatting")
 	}
 	// Value.safeStr dispatches to SafeStr
 	sps := c.pathsOf("Value.safeStr")
